@@ -350,7 +350,7 @@ def exhaustive_templates():
 def plan(tier, seed, scale):
     K = 16
     tasks = [{"name": "exh-%d" % i, "kind": "exh", "i": i, "k": 4} for i in range(4)]
-    total = int((12000 if tier == "quick" else 200000) * scale)
+    total = int((12000 if tier == "quick" else 150000) * scale)
     for i in range(K):
         tasks.append({"name": "rand-%d" % i, "kind": "rand", "n": max(total // K, 5), "shard": i,
                       "depth": 3 if tier == "quick" else 4})
